@@ -280,6 +280,10 @@ func newVfGW(x *vfExec, cfg *vfGWCfg, msgs map[string]vfMsgSpec, extra ...Option
 		gated: map[string]bool{}, app: map[peer.ID]float64{}, topics: map[string]*Topic{}, subs: map[string][]*Subscription{},
 		relays: map[string][]RelayCancelFunc{}, msgs: msgs, t0: time.Now(), wire: map[string][]vfRecv{}, lpubErr: map[string]string{}, localID: map[string]string{}, valCalls: map[string]int{}, held: map[string]bool{}}
 	opts := []Option{WithMessageSignaturePolicy(StrictNoSign)}
+	if cfg.Extra["sign"] != "" {
+		// the default strict-signing policy; the scripted peers' messages are honestly signed (see pbMsg)
+		opts = []Option{WithMessageSignaturePolicy(StrictSign)}
+	}
 	if cfg.QueueSize > 0 {
 		opts = append(opts, WithPeerOutboundQueueSize(cfg.QueueSize))
 	}
@@ -631,6 +635,20 @@ func (g *vfGW) pbMsg(m string) *pb.Message {
 		from = g.pid(spec.Author)
 	}
 	pm := vfMsg(spec.Topic, from, spec.Seq, data)
+	if g.cfg.Extra["sign"] != "" && spec.Author != "" {
+		// honestly signed: author "x" has an RSA identity (its peer ID is a hash, so the message carries the key), every
+		// other author the Ed25519 identity of its name (key embedded in the ID, no key field). RSA PKCS#1 v1.5 and
+		// Ed25519 signatures are deterministic, so the same label always yields the same bytes.
+		id := vfIdentity(spec.Author)
+		if spec.Author == "x" {
+			id = vfSignedAuthorX()
+		}
+		pm.From = []byte(id.id)
+		if err := signMessage(id.id, id.priv, pm); err != nil {
+			panic(err)
+		}
+		return pm
+	}
 	if spec.SeqHex == "-" {
 		pm.Seqno = nil
 	} else if spec.SeqHex != "" {
@@ -641,6 +659,25 @@ func (g *vfGW) pbMsg(m string) *pb.Message {
 		pm.Seqno = b
 	}
 	return pm
+}
+
+var vfSignedX *vfIdent
+
+// vfSignedAuthorX: the RSA identity of author "x" in signing scenarios (from the C03 key set; registered under a
+// name so that canonical output does not depend on the key bytes, which differ from process to process).
+func vfSignedAuthorX() *vfIdent {
+	keys := vfC03KeySet() // (takes the identity lock itself)
+	vfIdentMu.Lock()
+	defer vfIdentMu.Unlock()
+	if vfSignedX == nil {
+		for _, k := range keys {
+			if k.name == "rsa" {
+				vfSignedX = &vfIdent{id: k.id, priv: k.priv, name: "x-rsa"}
+				vfIdentByID[k.id] = vfSignedX
+			}
+		}
+	}
+	return vfSignedX
 }
 
 func (g *vfGW) msgID(m string) string {
